@@ -3,13 +3,21 @@ From XV Require Import Lib.Sx Model.Queue Model.Ack.
 Import ListNotations.
 Open Scope Z_scope.
 
+(* Send kinds: 0 stanza, 1 stanza.SMRequest, 2 stanza.SMAnswer, 3 *stanza.SMRequest, 4 *stanza.SMAnswer
+   (a pointer is the same packet).  Raw kinds (the harness's reading of the string's first element):
+   0 stanza, 1 {urn:xmpp:sm:3}r, 2 {urn:xmpp:sm:3}a. *)
+Definition dec_kind (k : Z) : option pkind :=
+  if k =? 0 then Some KStanza else if (k =? 1) || (k =? 3) then Some KRequest
+  else if (k =? 2) || (k =? 4) then Some KAnswer else None.
+
 Definition dec_op (x : sx) : option aop :=
   match x with
-  | SL [SZ 0; SZ k; SS d] =>
-      if k =? 0 then Some (ASend KStanza d) else if k =? 1 then Some (ASend KRequest d)
-      else if k =? 2 then Some (ASend KAnswer d) else None
-  | SL [SZ 1; SS d] => Some (ASendRaw d)
+  | SL [SZ 0; SZ k; SS d] => do kd <- dec_kind k; Some (ASend kd d)
+  | SL [SZ 1; SS d] => Some (ASendRaw KStanza d)
+  | SL [SZ 1; SZ k; SS d] => if k <=? 2 then do kd <- dec_kind k; Some (ASendRaw kd d) else None
   | SL [SZ 2; SZ h] => Some (AAck h)
+  | SL [SZ 3; SZ k] => Some (AAck (2 ^ 63 + k))     (* h beyond the signed range *)
+  | SL [SZ 4; SZ k; SS d] => do kd <- dec_kind k; Some (ARefused kd d)
   | _ => None
   end.
 
@@ -23,7 +31,7 @@ Definition entry_sx (e : Z * str) : sx := SL [SZ (fst e); SS (snd e)].
    acknowledgements whose interleaving is not observable: only the queue afterwards is *)
 Definition dec_group (x : sx) : option (bool * list aop) :=
   match x with
-  | SL [SZ 9; SL ds] => do l <- omap (fun d => do s <- as_s d; Some (ASendRaw s)) ds; Some (true, l)
+  | SL [SZ 9; SL ds] => do l <- omap (fun d => do s <- as_s d; Some (ASendRaw KStanza s)) ds; Some (true, l)
   | SL [SZ 8; SL acks] => do l <- omap dec_op acks; Some (false, l)
   | _ => do o <- dec_op x; Some (true, [o])
   end.
